@@ -10,7 +10,8 @@
 (*    "auto"    auto-refresh on with a watcher: the watcher goroutine rescans by itself    *)
 (* harness/lin.go logs, in one total order (a mutex-protected log),                      *)
 (*    swb v / swe v      before / after the rename that makes version v current            *)
-(*    call t c op        goroutine t is about to call op on cache c                        *)
+(*    call t c op        goroutine t is about to call op on cache c (Refresh, a query,    *)
+(*                       Configure with the options the cache already has, GetErrors)    *)
 (*    ret  t v           the call returned; v = the version the result shows (0: none to  *)
 (*                       show, -1: the result mixes versions or is incomplete)             *)
 (* What is not logged happens as silent steps: the rename taking effect between swb and  *)
@@ -66,13 +67,16 @@ Lin(t) ==
      \/ /\ p.op = "Refresh" /\ p.c = "auto"            \* with a watcher Refresh() is not forced (cache.go Refresh:
         /\ UNCHANGED idx                                \* refreshIfRequired(!c.autoRefresh)); the watcher does the work
         /\ pend' = [pend EXCEPT ![t].done = TRUE]
+     \/ /\ p.op = "Configure"                        \* reconfiguring = a new cache: (watcher restarted and) scanned
+        /\ idx' = [idx EXCEPT ![p.c] = dirV]
+        /\ pend' = [pend EXCEPT ![t].done = TRUE]
      \/ /\ p.op \in Queries /\ p.c = "rescan"        \* no watcher: the query scans first, then answers
         /\ idx' = [idx EXCEPT ![p.c] = dirV]
         /\ pend' = [pend EXCEPT ![t].done = TRUE, ![t].val = dirV]
      \/ /\ p.op \in Queries /\ p.c # "rescan"        \* answers from the index as it is
         /\ UNCHANGED idx
         /\ pend' = [pend EXCEPT ![t].done = TRUE, ![t].val = idx[p.c]]
-     \/ /\ p.op \notin Queries /\ p.op # "Refresh"   \* GetErrors, GetSpecDirectories, ...: no visible effect here
+     \/ /\ p.op \notin Queries /\ p.op \notin {"Refresh", "Configure"}   \* GetErrors, GetSpecDirectories, ...: no visible effect here
         /\ UNCHANGED idx
         /\ pend' = [pend EXCEPT ![t].done = TRUE]
 
